@@ -46,7 +46,7 @@ def gen_cases(tier, seed):
                 cases.append({"id": "L/%s/%d/%s" % (what, ln, route), "biglist": what, "length": ln, "route": route, "seed": ln})
     # metadata that came from another writer (file-level fields fastparquet never writes itself: column_orders) and is re-serialised by
     # merge / append / remove_row_groups / in-place key-value update
-    for i, op in enumerate(["merge", "merge_append", "merge_remove", "update_kv", "merge_overwrite", "write_common"] * (2 if tier == "quick" else 20)):
+    for i, op in enumerate(["merge", "merge_append", "merge_remove", "update_kv", "merge_overwrite", "write_common", "selection"] * (2 if tier == "quick" else 20)):
         cases.append({"id": "RS/%s/%d" % (op, i), "reser": op, "seed": 7000 + i, "route": "foreign", "nfiles": 2 + i % 3})
     return cases
 
@@ -109,7 +109,30 @@ def reserialise_case(case):
                     res["failures"].append({"kind": "value_changed", "path": what + ".key_value_metadata[%r]" % k_, "expected": repr(v_)[:60], "got": repr(kv_got.get(k_))[:60], **ctx})
             counters["reserialised_footers_checked"] = counters.get("reserialised_footers_checked", 0) + 1
         from vf.ref import compact as CP_
-        if op == "update_kv":
+        if op == "selection":
+            # the metadata of a row-group selection of a library-written dataset, serialised the ways a selection gets serialised
+            import pickle
+            from vf.ref import idl as IDL_
+            d2 = os.path.join(root, "own")
+            fastparquet.write(d2, pd.DataFrame({"rid": np.arange(30, dtype="int64"), "s": ["t%d" % (x % 7) for x in range(30)],
+                                                "c": pd.Categorical(["u", "v", "w"] * 10)}), file_scheme="hive", row_group_offsets=8)
+            pf = fastparquet.ParquetFile(d2)
+            for label, sub in (("pf[:2]", pf[:2]), ("pf[1]", pf[1]), ("pf[::2] pickled", pickle.loads(pickle.dumps(pf[::2]))), ("pf", pf)):
+                raw = bytes(sub.fmd.to_bytes())
+                val, end, diags = CP_.parse(raw, "FileMetaData", IDL_.load())
+                for code, where, detail in diags:
+                    res["failures"].append({"kind": "idl_violation", "code": code, "where": "%s.fmd.to_bytes():%s" % (label, where), "detail": detail[:120], **ctx})
+                counters["reserialised_footers_checked"] = counters.get("reserialised_footers_checked", 0) + 1
+            sub = pf[:2]
+            sub._write_common_metadata()
+            for fn_ in ("_metadata", "_common_metadata"):
+                info = R.read_file(os.path.join(d2, fn_), data_dir=d2, check_pages=False)
+                for code, where, detail in info.diags:
+                    if code == "NUM_ROWS":
+                        continue      # a selection keeps its parent's num_rows; row-count consistency is C02 / C17's subject, not serialisation
+                    res["failures"].append({"kind": "idl_violation", "code": code, "where": "selection._write_common_metadata:%s:%s" % (fn_, where), "detail": detail[:120], **ctx})
+                counters["reserialised_footers_checked"] = counters.get("reserialised_footers_checked", 0) + 1
+        elif op == "update_kv":
             FW.update_file_custom_metadata(paths[0], {"added": "x" * int(rng.integers(1, 40)), "k0": None})
             check(paths[0], "update_kv")
         elif op == "write_common":
